@@ -9,8 +9,9 @@ PY = "/venv/bin/python"
 def run(cmd, cwd=None, env=None, timeout=900):
     r = subprocess.run(cmd, cwd=cwd, env=env, capture_output=True, text=True, timeout=timeout)
     return r.returncode, (r.stdout + r.stderr)[-1500:]
+ROUND = os.environ.get("SEED_ROUND", "")
 for prop in sys.argv[1:]:
-    src = "/tmp/seed_%s_out" % prop.lower()
+    src = "/tmp/seed%s_%s_out" % (ROUND, prop.lower())
     for i in (1, 2, 3):
         patch, demo, meta = (os.path.join(src, n % i) for n in ("patch_%d.diff", "demo_%d.py", "meta_%d.json"))
         if not os.path.exists(patch):
@@ -28,7 +29,7 @@ for prop in sys.argv[1:]:
             ok = rc0 == 0 and rca == 0 and rct == 0 and "144 passed" in outt and rc1 != 0
             print("%s-%d pristine_demo=%d apply=%d tests=%d(%s) patched_demo=%d => %s" % (prop, i, rc0, rca, rct, outt.strip().splitlines()[-1][:40], rc1, "CONFIRMED" if ok else "REJECTED"), flush=True)
             if ok:
-                dst = os.path.join(VERIF, "seeded", "%s-%d" % (prop, i))
+                dst = os.path.join(VERIF, "seeded", "%s-%s%d" % (prop, ("r%s-" % ROUND) if ROUND else "", i))
                 os.makedirs(dst, exist_ok=True)
                 shutil.copy(patch, os.path.join(dst, "patch.diff"))
                 shutil.copy(demo, os.path.join(dst, "demo.py"))
